@@ -30,20 +30,28 @@ Z = None
 
 
 def _shapes(tier):
+    """name -> (feature shapes, extra opts).  Paths multiply across scenarios that all execute (about 1 + c*steps classes each,
+    c = number of non-pass outcome classes), so only small shapes get outcomes over all of Z; larger ones are restricted
+    to {pass, assert-fail, exception} or {pass, assert-fail} without undefined steps - the restriction is part of the bound."""
+    Z = {}
+    D3 = {"out_dom": {"*": [0, 2]}}
+    D2 = {"out_dom": {"*": [0, 1]}, "undef": False}
     sh = {
-        "2sc": [F([S(2), S(2)])],
-        "bg+rule": [F([S(1), R([S(1)], bg=1)], bg=1)],
-        "outline": [F([O(1, [(2, [])]), S(1)])],
-        "2feat": [F([S(2)]), F([S(1)])],
-        "wip": [F([S(2, tags=["wip"]), S(1)])],
+        "2sc": ([F([S(2), S(2)])], Z),
+        "bg+rule": ([F([S(1), R([S(1)], bg=1)], bg=1)], Z),
+        "outline": ([F([O(1, [(2, [])]), S(1)])], Z),
+        "2feat": ([F([S(2)]), F([S(1)])], Z),
+        "wip": ([F([S(2, tags=["wip"]), S(1)])], Z),
     }
     if tier == "thorough":
         sh.update({
-            "3sc": [F([S(2), S(2), S(2)])],
-            "rule-outline": [F([S(1), R([O(2, [(2, []), (1, [])]), S(1)], bg=1)], bg=1)],
-            "2feat-rule": [F([S(1), R([S(2), S(1)])]), F([O(1, [(2, [])])], bg=1)],
-            "wip-feature": [F([S(3), S(1)], tags=["wip"])],
-            "3steps": [F([S(3), S(3)])],
+            "3sc": ([F([S(2), S(2), S(2)])], D3),
+            "rule-outline": ([F([S(1), R([O(2, [(2, []), (1, [])]), S(1)], bg=1)], bg=1)], D2),
+            "2feat-rule": ([F([S(1), R([S(2), S(1)])]), F([O(1, [(2, [])])], bg=1)], D2),
+            "wip-feature": ([F([S(3), S(1)], tags=["wip"])], D3),
+            "3steps": ([F([S(3), S(3)])], Z),
+            "5sc": ([F([S(1), S(1), R([S(1), S(1)]), R([S(1)])])], D3),
+            "2feat-bg": ([F([S(2), S(1)], bg=1), F([S(1), S(1)], bg=1)], D3),
         })
     return sh
 
@@ -58,10 +66,10 @@ def flag_shards(tier):
 def jobs(tier, seed):
     js = []
     base = ["verdict", "steps"]
-    for name, shapes in _shapes(tier).items():
+    for name, (shapes, xo) in _shapes(tier).items():
         for fname, fopts in flag_shards(tier):
             js.append(Job("run.%s%s" % (name, fname), "vlib.stage1:h_stage1",
-                          {"shapes": shapes, "opts": fopts, "checks": base},
+                          {"shapes": shapes, "opts": dict(fopts, **xo), "checks": base},
                           reach=["C01.no-false-green(events)", "C01.verdict==RunSpec"],
                           min_paths=5, cost=50, validate=150 if tier == "quick" else 500))
     # selection symbolic (arbitrary tag predicate), outcomes {pass, fail, exception}
@@ -87,12 +95,12 @@ def jobs(tier, seed):
                   reach=["C01.no-false-green(events)"], min_paths=4, cost=20, validate=100))
     if tier == "thorough":
         js.append(Job("hookfault2", "vlib.stage1:h_stage1",
-                      {"shapes": [F([S(1, tags=["t1"]), O(1, [(2, ["t3"])])], tags=["t0"]), F([S(1)])],
-                       "opts": {"hooks": True, "fault": True, "fault2": True, "stop": "sym", "out_dom": {"*": [0, 1]}},
+                      {"shapes": [F([S(1, tags=["t1"]), O(1, [(1, ["t3"])])], tags=["t0"])],
+                       "opts": {"hooks": True, "fault": True, "fault2": True, "out_dom": {"*": [0, 1]}, "undef": False},
                        "checks": ["verdict"]},
                       reach=["C01.no-false-green(events)"], min_paths=50, cost=500, validate=2000))
         js.append(Job("select.big", "vlib.stage1:h_stage1",
                       {"shapes": [F([S(1), O(1, [(2, []), (1, [])]), R([S(1), S(1)])]), F([S(1)])],
-                       "opts": {"select": True, "stop": "sym", "dry_run": "sym", "out_dom": {"*": [0, 3]}}, "checks": base},
+                       "opts": {"select": True, "stop": "sym", "dry_run": "sym", "out_dom": {"*": [0, 1]}, "undef": False}, "checks": base},
                       reach=["C01.verdict==RunSpec"], min_paths=100, cost=800, validate=2000))
     return js
